@@ -1125,3 +1125,122 @@ func runReceiverState(c *Ctx) {
 		c.MissingAnchor("app.(*SnapshotSender).runTransfer")
 	}
 }
+
+func init() {
+	Register(&Rule{
+		Name:  "R-WALK-ROOT",
+		Props: []string{"C13"},
+		Min:   2,
+		Doc: "in pkg/manifest a directory that was recognised through os.Stat (which follows a symbolic link) is walked from a link-resolved root: the root argument of every filepath.WalkDir / Walk in a function that classifies its path with os.Stat " +
+			"derives from filepath.EvalSymlinks (directly or through a helper that returns its result) - WalkDir lstats its root and never descends into a link, so a selected link to a directory would be listed as an empty directory and transferred as one (F30); " +
+			"the relative paths of the walk are taken against that same root",
+		Run: runWalkRoot,
+	})
+}
+
+func runWalkRoot(c *Ctx) {
+	p := c.P
+	// helpers that return EvalSymlinks' result
+	resolves := func(info *types.Info, e ast.Expr) bool {
+		call, ok := ast.Unparen(e).(*ast.CallExpr)
+		if !ok {
+			return false
+		}
+		if calleeIs(info, call, "path/filepath", "EvalSymlinks") {
+			return true
+		}
+		g := p.CalleeInfo(info, call)
+		if g == nil {
+			return false
+		}
+		hit := false
+		gi := g.Info()
+		ast.Inspect(g.Body, func(m ast.Node) bool {
+			if c2, ok := m.(*ast.CallExpr); ok && calleeIs(gi, c2, "path/filepath", "EvalSymlinks") {
+				hit = true
+			}
+			return true
+		})
+		if !hit {
+			return false
+		}
+		// some return of g returns the variable assigned from EvalSymlinks
+		retOK := false
+		ast.Inspect(g.Body, func(m ast.Node) bool {
+			rs, ok := m.(*ast.ReturnStmt)
+			if !ok || len(rs.Results) == 0 {
+				return true
+			}
+			for _, d := range resolveExprs(g, rs.Results[0], 2) {
+				if c2, ok := ast.Unparen(d).(*ast.CallExpr); ok && calleeIs(gi, c2, "path/filepath", "EvalSymlinks") {
+					retOK = true
+				}
+			}
+			return true
+		})
+		return retOK
+	}
+	n := 0
+	perFn := map[string]int{}
+	for _, f := range p.FuncsIn("pkg/manifest") {
+		if f.Lit != nil {
+			continue
+		}
+		info := f.Info()
+		usesStat := false
+		InspectNoLits(f.Body, func(m ast.Node) bool {
+			if call, ok := m.(*ast.CallExpr); ok && calleeIs(info, call, "os", "Stat") {
+				usesStat = true
+			}
+			return true
+		})
+		InspectNoLits(f.Body, func(m ast.Node) bool {
+			call, ok := m.(*ast.CallExpr)
+			if !ok || !(calleeIs(info, call, "path/filepath", "WalkDir") || calleeIs(info, call, "path/filepath", "Walk")) || len(call.Args) != 2 {
+				return true
+			}
+			n++
+			perFn[f.Name]++
+			key := fmt.Sprintf("walk-root/%s#%d", f.Name, perFn[f.Name])
+			if !usesStat {
+				c.OK(key, call.Pos(), f.Name+" does not classify its path with os.Stat")
+				return true
+			}
+			ok2 := false
+			for _, d := range resolveExprs(f, call.Args[0], 2) {
+				if resolves(info, d) {
+					ok2 = true
+				}
+			}
+			// a root variable with a fallback (`root, err := EvalSymlinks(p); if err != nil { root = p }`): one definition resolves
+			if o := ObjOf(info, call.Args[0]); o != nil && !ok2 {
+				for _, d := range allDefs(f, o) {
+					if resolves(info, d) {
+						ok2 = true
+					}
+				}
+			}
+			c.Check(ok2, key, call.Pos(), "the walk starts at the link-resolved directory",
+				f.Name+" recognises a directory with os.Stat (follows links) but walks "+types.ExprString(call.Args[0])+" as given: filepath.WalkDir does not descend into a symbolic link even as its root, so a selected link to a directory is listed as an empty directory and the transfer delivers an empty folder without any error")
+			// relative paths are taken against the same root
+			rootObj := ObjOf(info, call.Args[0])
+			if lit, isLit := ast.Unparen(call.Args[1]).(*ast.FuncLit); isLit && rootObj != nil {
+				k := 0
+				ast.Inspect(lit.Body, func(x ast.Node) bool {
+					c3, ok := x.(*ast.CallExpr)
+					if !ok || !calleeIs(info, c3, "path/filepath", "Rel") || len(c3.Args) != 2 {
+						return true
+					}
+					k++
+					c.Check(ObjOf(info, c3.Args[0]) == rootObj, fmt.Sprintf("%s/rel#%d", key, k), c3.Pos(), "relative paths are computed against the walked root",
+						"the walk callback computes relative paths against "+types.ExprString(c3.Args[0])+", not against the walked root "+rootObj.Name()+": below a resolved link every entry gets a path that climbs out of the selection (../..), or the walk fails")
+					return true
+				})
+			}
+			return true
+		})
+	}
+	if n == 0 {
+		c.Bad("walk-root/none", token.NoPos, "found no directory walk in pkg/manifest")
+	}
+}
